@@ -432,7 +432,6 @@ func (g *malGen) optDoc(depth int) string {
 
 func (g *malGen) weirdAPI(depth int) bson.D { return g.weird(depth) }
 
-
 func update0(g *malGen) bson.D {
 	r := g.r
 	switch r.intn(4) {
